@@ -290,6 +290,10 @@ def _worker(args):
 def run_workers(prop_id: str, tier: str, seed: int, jobs: int) -> List[dict]:
     mod = importlib.import_module(f"vp.props.{prop_id.lower()}")
     total = mod.budget(tier)
+    # (VERIF_BUDGET_SCALE: smoke runs of a tier with a fraction of its examples)
+    scale = float(os.environ.get("VERIF_BUDGET_SCALE", "1"))
+    if scale != 1:
+        total = max(16, int(total * scale))
     if total <= 0:
         return []
     jobs = max(1, min(jobs, total))
